@@ -809,28 +809,42 @@ class GEA:
         key = self._place_key(p)
         if key is None:
             return
+        # evaluate against the OLD values first (`n = n - 1` reads n), then forget what was known about the target
+        old = dict(val)
         self._ival_kill(val, key)
+        new = dict(val)
+        val.clear()
+        val.update(old)
+        try:
+            self._ival_assign2(val, new, key, rv)
+        finally:
+            val.clear()
+            val.update(new)
+
+    def _ival_assign2(self, val, out, key, rv):
+        """Evaluate rv under `val` (the state before the assignment) and record the results into `out`."""
+        _set = lambda k_, v_: self._ival_set(out, k_, v_)  # noqa: E731
         k = rv["k"]
         if k == "use":
             v = self._eval_op(rv["op"], val)
             if v is not None:
-                self._ival_set(val, key, v)
+                _set(key, v)
             elif rv["op"]["k"] in ("copy", "move"):
                 src = self._place_key(rv["op"]["p"])
                 if src is not None:          # a structured value: copy what is known about its parts
                     for a, vs in list(val.items()):
                         if a[0] == "ival" and a[1] == src[0] and a[2][:len(src[1])] == src[1] and len(vs) == 1:
-                            self._ival_set(val, (key[0], key[1] + a[2][len(src[1]):]), next(iter(vs)))
+                            _set((key[0], key[1] + a[2][len(src[1]):]), next(iter(vs)))
         elif k == "cast" and rv.get("ck") in ("IntToInt",):
             v = self._eval_op(rv["op"], val)
             if v is not None:
-                self._ival_set(val, key, int(v))
+                _set(key, int(v))
         elif k == "unop":
             v = self._eval_op(rv["a"], val)
             if v is not None and rv["op"] == "Not" and isinstance(v, bool):
-                self._ival_set(val, key, not v)
+                _set(key, not v)
             elif v is not None and rv["op"] == "Neg" and not isinstance(v, bool):
-                self._ival_set(val, key, -v)
+                _set(key, -v)
         elif k == "binop":
             a, b = self._eval_op(rv["a"], val), self._eval_op(rv["b"], val)
             if a is None or b is None:
@@ -849,23 +863,23 @@ class GEA:
             if r is None:
                 return
             if op.endswith("WithOverflow"):
-                self._ival_set(val, (key[0], key[1] + ("0",)), r)
-                self._ival_set(val, (key[0], key[1] + ("1",)), False)
+                _set((key[0], key[1] + ("0",)), r)
+                _set((key[0], key[1] + ("1",)), False)
             else:
-                self._ival_set(val, key, r)
+                _set(key, r)
         elif k == "aggregate" and rv.get("ak") in ("adt", "tuple"):
             names = rv.get("fields") if rv.get("ak") == "adt" else [str(i) for i in range(len(rv["ops"]))]
             if names and len(names) == len(rv["ops"]):
                 for n_, o in zip(names, rv["ops"]):
                     v = self._eval_op(o, val)
                     if v is not None:
-                        self._ival_set(val, (key[0], key[1] + (n_,)), v)
+                        _set((key[0], key[1] + (n_,)), v)
                     elif o["k"] in ("copy", "move"):
                         src = self._place_key(o["p"])
                         if src is not None:
                             for a, vs in list(val.items()):
                                 if a[0] == "ival" and a[1] == src[0] and a[2][:len(src[1])] == src[1] and len(vs) == 1:
-                                    self._ival_set(val, (key[0], key[1] + (n_,) + a[2][len(src[1]):]), next(iter(vs)))
+                                    _set((key[0], key[1] + (n_,) + a[2][len(src[1]):]), next(iter(vs)))
 
     def _explore(self):
         body, pv = self.body, self.prov
